@@ -311,6 +311,7 @@ namespace xsv
         uint64_t known_hits = 0;
         std::unordered_set<uint64_t> distinct; // hashes of distinct non-trivial cases
         bool distinct_capped = false;
+        uint64_t distinct_extra = 0; // distinct non-trivial cases counted without hashing (enumerations whose cases are distinct by construction)
         static constexpr size_t kCap = 3000000;
         std::map<std::string, uint64_t> classes; // class histogram
         std::map<std::string, uint64_t> per_target;
@@ -416,7 +417,7 @@ namespace xsv
             s += ",\"lane_checks\":" + std::to_string(st.lane_checks);
             s += ",\"skipped_lanes\":" + std::to_string(st.skipped_lanes);
             s += ",\"nontrivial_cases\":" + std::to_string(st.nontrivial_cases);
-            s += ",\"distinct_nontrivial\":" + std::to_string(st.distinct.size());
+            s += ",\"distinct_nontrivial\":" + std::to_string(st.distinct.size() + st.distinct_extra);
             s += std::string(",\"distinct_capped\":") + (st.distinct_capped ? "true" : "false");
             s += std::string(",\"exhaustive\":") + (st.exhaustive ? "true" : "false");
             s += ",\"known_hits\":" + std::to_string(st.known_hits);
